@@ -437,9 +437,15 @@ def extract(node, variant, report):
     else:
         if node['spec'] or node['loops'] or node['ret']:
             raise TemplateError('spec/loop/ret on a non-fn item: %s' % node['path'])
+    search_from = it.start
+    if node.get('slice') and it.kind == 'fn' and it.body_open >= 0:
+        # anchors of a sliced fn are looked for in the slice only
+        sp = text.find(node['slice']['lit'], it.body_open, it.end)
+        if sp >= 0:
+            search_from = sp
     for ins in node['inserts']:
         lit = ins['lit']
-        pos = it.start - 1
+        pos = search_from - 1
         for _ in range(ins['nth']):
             pos = text.find(lit, pos + 1, it.end)
             if pos < 0:
@@ -448,7 +454,7 @@ def extract(node, variant, report):
         at = pos if ins['where'] == 'before' else pos + len(lit)
         edits.append((at, at, '\n' + '\n'.join(lines) + '\n', 'insert'))
     for old, new, why in node['subs']:
-        pos = text.find(old, it.start, it.end)
+        pos = text.find(old, search_from, it.end)
         if pos < 0:
             raise AnchorLost('%s: sub anchor %r not found in %s' % (node['file'], old, ' >> '.join(node['path'])))
         if text.find(old, pos + 1, it.end) >= 0:
